@@ -259,7 +259,9 @@ func dumpParaReadable(p control.Paragraph) string {
 
 // ---- generators -----------------------------------------------------------------------
 
-var fieldNames = []string{"Package", "Version", "Description", "Depends", "X-Foo", "a", "Files", "Checksums-Sha256", "Build-Depends", "Z"}
+// field names, some of which differ only in letter case (distinct fields for this reader)
+var fieldNames = []string{"Package", "Version", "Description", "Depends", "X-Foo", "a", "Files", "Checksums-Sha256", "Build-Depends", "Z",
+	"package", "PACKAGE", "description", "A", "z", "x-foo", "X-FOO", "version"}
 
 func genLineText(r *core.Rand) string {
 	if r.Chance(1, 150) {
